@@ -17,6 +17,7 @@
     css_ok css_no_negative_margin password_inputs_dropped no_password_input no_password_input_after_decoding password_rule_reference_witness
     html_reparse_prolog_safe_partial xhtml_reparse_prolog_safe_partial xhtml_doctype_quote_witness
     decode_loop_fuel_independent comment_loop_fuel_independent loops_end_stable
+    css_helpers_total strip_css_comments_complete unsafe_css_property_dropped default_css_no_scripting_properties
 -/
 import Genshi.Lemmas.SanNest
 import Genshi.Lemmas.SanTree
@@ -924,6 +925,74 @@ example : stripentities ['&', 'a', 'm', 'p', ';', 'a', 'm', 'p', ';', 'a', 'm', 
     .ok ['&', 'a', 'm', 'p', ';', 'a', 'm', 'p', ';', '#', '1', '0', '6', ';'] := by decide +kernel
 example : stripCssComments ['e', '/', '/', '*', '*', '/', '*', '*', '/', 'x'] = ['e', 'x'] ∧
     stripCommentsOnce true ['e', '/', '/', '*', '*', '/', '*', '*', '/', 'x'] = ['e', '/', '*', '*', '/', 'x'] := by decide +kernel
+
+/-! ## The helpers of `sanitize_css`, one by one (wave 4 audit)
+
+  `_replace_unicode_escapes`, `_strip_css_comments`, `is_safe_css`, `is_safe_uri` and the
+  attribute loop are each a model function of their own (`replaceUnicodeEscapes`,
+  `stripCssComments`, `isSafeCss`, `isSafeUri`, `sanAttr`/`sanAttrs`), compared with the code one
+  by one (streams `_replace_unicode_escapes`, `_strip_css_comments`, `is_safe_css`, `is_safe_uri`,
+  `decode-loop`) besides the composite streams.  genshi has no special treatment of vendor
+  prefixes, `behavior` or `-moz-binding`: such properties are dropped because they are not in
+  `safe_css` — for every configuration (`unsafe_css_property_dropped`), and the default set holds
+  none of them (`default_css_no_scripting_properties`, over the generated table). -/
+
+/-- none of the helpers raises: escape decoding (hex escapes beyond U+10FFFF, surrogates, `\5c`,
+    a trailing white-space character, backslash-newline, a backslash at the end), the attribute
+    loop on one attribute, the decoding loop -/
+theorem css_helpers_total (cfg : Cfg) (s : Str) (a : QName × Str) :
+    (∃ r, replaceUnicodeEscapes s = .ok r) ∧ (∃ r, sanAttr cfg a = .ok r) ∧ (∃ r, stripRefs s = .ok r) :=
+  ⟨replaceUnicodeEscapes_ok s, sanAttr_ok cfg a, stripRefs_ok s⟩
+
+/-- `_strip_css_comments` leaves no complete comment `/*…*/` behind, however the comments are
+    nested or staggered (the loop runs until the text is stable) -/
+theorem strip_css_comments_complete (s : Str) : NoComment (stripCssComments s) :=
+  stripCssComments_noComment css_comments_dotall s
+
+/-- A declaration whose property (stripped, lower-cased) is not in `safe_css` is never emitted —
+    for every configuration: vendor-prefixed properties, `behavior`, `-moz-binding`, … need no
+    rule of their own. -/
+theorem unsafe_css_property_dropped {cfg : Cfg} {piece d : Str} (h : cssDecl cfg piece = some d) :
+    ∃ pn v, split1 ':' (pyStrip piece) = (pn, some v) ∧ pyLower (pyStrip pn) ∈ cfg.safeCss := by
+  unfold cssDecl at h
+  simp only at h
+  split at h
+  · cases h
+  · split at h
+    · cases h
+    · rename_i pn v hsp
+      refine ⟨pn, v, hsp, ?_⟩
+      split at h
+      · cases h
+      · rename_i hsafe
+        cases hc : isSafeCss cfg (pyLower (pyStrip pn)) (pyStrip v) with
+        | false => simp [hc] at hsafe
+        | true =>
+          unfold isSafeCss at hc
+          simp only [Bool.and_eq_true] at hc
+          simpa using hc.1
+
+def startsWithDash : Str → Bool
+  | '-' :: _ => true
+  | _ => false
+
+/-- The default `SAFE_CSS` (generated from the class attribute) holds no property that runs code or
+    binds behaviour, no vendor-prefixed property, and not `position`. -/
+theorem default_css_no_scripting_properties :
+    (∀ p ∈ [['b', 'e', 'h', 'a', 'v', 'i', 'o', 'r'], ['-', 'm', 'o', 'z', '-', 'b', 'i', 'n', 'd', 'i', 'n', 'g'],
+            ['-', 'm', 's', '-', 'b', 'e', 'h', 'a', 'v', 'i', 'o', 'r'], ['-', 'o', '-', 'l', 'i', 'n', 'k'],
+            ['f', 'i', 'l', 't', 'e', 'r'], ['p', 'o', 's', 'i', 't', 'i', 'o', 'n'], ['e', 'x', 'p', 'r', 'e', 's', 's', 'i', 'o', 'n']],
+        p ∉ Cfg.default.safeCss) ∧
+    (∀ p ∈ Cfg.default.safeCss, startsWithDash p = false) := by
+  decide +kernel
+
+-- non-vacuity: vendor-prefixed / behaviour properties are dropped, escapes with a trailing
+-- white-space character and backslash-newline are decoded as the code does
+example : sanitizeCss Cfg.default ['-', 'm', 'o', 'z', '-', 'b', 'i', 'n', 'd', 'i', 'n', 'g', ':', 'u', 'r', 'l', '(', 'x', ')', ';',
+    'b', 'e', 'h', 'a', 'v', 'i', 'o', 'r', ':', 'u', 'r', 'l', '(', 'x', ')', ';', 'c', 'o', 'l', 'o', 'r', ':', 'r', 'e', 'd'] =
+    .ok [['c', 'o', 'l', 'o', 'r', ':', 'r', 'e', 'd']] := by decide +kernel
+example : replaceUnicodeEscapes ['\\', '6', '5', ' ', 'x', '\\', '6', '5', '\r', '\n', 'y', '\\', '\n', 'z', '\\'] =
+    .ok ['e', 'x', 'e', 'y', '\\', '\n', 'z', '\\'] := by decide +kernel
 
 /-! ## The order of the two CSS passes
 
